@@ -233,6 +233,45 @@ impl Board {
         s.push_str("   a b c d e f g h\n");
         s
     }
+    /// The same position in one of the notations the parser accepts (all of them occur in the
+    /// repository's documentation or tests): bit 0 upper-case 'X' for an empty trap, bit 1 side letters
+    /// w/b instead of g/s, bit 2 every line indented, bit 3 header left out (only for "2g", the
+    /// parser's default), bit 4 blank instead of 'x' for an empty trap, bit 5 a leading empty line.
+    pub fn diagram_styled(&self, move_number: usize, gold_to_move: bool, notation: u8) -> String {
+        let plain = self.diagram(move_number, gold_to_move);
+        if notation == 0 {
+            return plain;
+        }
+        let mut lines: Vec<String> = plain.lines().map(|l| l.to_string()).collect();
+        if notation & 2 != 0 {
+            let h = &mut lines[0];
+            let letter = if gold_to_move { 'w' } else { 'b' };
+            h.pop();
+            h.push(letter);
+        }
+        for l in lines.iter_mut().skip(2).take(8) {
+            if notation & 16 != 0 {
+                *l = l.replace('x', " ");
+            } else if notation & 1 != 0 {
+                *l = l.replace('x', "X");
+            }
+        }
+        if notation & 8 != 0 && move_number == 2 && gold_to_move {
+            lines.remove(0);
+        }
+        let indent = if notation & 4 != 0 { "    " } else { "" };
+        let mut out = String::new();
+        if notation & 32 != 0 {
+            out.push('\n');
+        }
+        for l in lines {
+            out.push_str(indent);
+            out.push_str(&l);
+            out.push('\n');
+        }
+        out
+    }
+
     pub fn fingerprint(&self) -> u64 {
         let mut h: u64 = 0xcbf29ce484222325;
         for &c in self.0.iter() {
